@@ -170,7 +170,9 @@ def step (d : D) (line : String) : D × String :=
     match num c NC with
     | some c =>
       if v == "connected" then finish d (Handler.step beh st (.setConnected c true))
-      else if v == "disconnected" then finish d (Handler.step beh st (.setConnected c false))
+      else if v == "disconnected" || v == "connecting" then
+        -- the model's `connected` is `conn->state == XMPP_STATE_CONNECTED`; CONNECTING is "not connected"
+        finish d (Handler.step beh st (.setConnected c false))
       else bad d
     | none => bad d
   | ["neg", c, v] =>
